@@ -135,7 +135,7 @@ def main(tier):
         regcheck.model_check(rep, bd, "all calls, depth 3: purity, cache coherence, refinement of the cache-free machine", 3, "all", "mid")
         regcheck.emit_and_replay(rep, bd, "all transitions to depth 2", 2, "all", "small", stats=stats)
         regcheck.emit_and_replay(rep, bd, "systematic sample of depth-3 transitions (cache-relevant calls)", 3, "cache", "small", every=12,
-                                 offset=common.seed() % 12, stats=stats)
+                                 offset=common.sample_seed(), stats=stats)
     real_db_part(rep, bd, thorough)
     rep.count(evaluations=stats["replayed"], nontrivial=stats["replayed"], traces=stats["replayed"])
     rep.cov["replayed_by_last_op"] = stats["ops"]
